@@ -70,15 +70,17 @@ Definition percent_throttles (s : thr) : res Q :=
   else if (total =? 0)%Z then Ok 0
   else Ok (round2 (inject_Z (t_thr s) / inject_Z total * 100)).
 
-(* allow_request at clock reading now *)
+(* allow_request at clock reading now: the decision is taken on the exact share (percent_throttles, rounded to two decimals, only
+   goes to the log): allowed unless enough responses were counted and  throttled * 100 > deny_request_at * total *)
 Definition allow_request (s : thr) (now : Q) : res (thr * bool) :=
   match percent_throttles s with
   | Err e => Err e
-  | Ok pct =>
+  | Ok _ =>
+    let total := (t_non s + t_thr s)%Z in
     let s' := if qlt (t_period s) (now - t_upd s)
               then {| t_non := 0; t_thr := 0; t_upd := now; t_period := t_period s; t_sample := t_sample s; t_deny := t_deny s |}
               else s in
-    Ok (s', Qle_bool pct (t_deny s))
+    Ok (s', qlt (inject_Z total) (t_sample s) || (total =? 0)%Z || Qle_bool (inject_Z (t_thr s * 100)) (t_deny s * inject_Z total))
   end.
 
 Definition throttled (s : thr) : thr :=
